@@ -293,7 +293,7 @@ FLOORS = {
     "C31": ["Recv.release:ok", "Ack.refund.escrow:ok", "Timeout.escrow:ok", "BankSend:ok", "Transfer.v1.fwd:ok"],
     "C32": ["Ack.refund.escrow:ok", "Ack.refund.mint:ok", "Timeout.escrow:ok", "Timeout.mint:ok", "Ack.success:ok", "Ack:noop",
             "Timeout:noop", "Timeout:err"],
-    "C33": ["case:Recv.release:ok", "case:Transfer.v1.ret:ok", "case:Transfer.alias.ret:ok", "walk:Recv.release:ok"],
+    "C33": ["case:Recv.release:ok", "case:Transfer.v1.ret:ok", "Transfer.alias.ret:ok", "walk:Recv.release:ok"],
     "C34": ["table:path.accepted", "table:path.rejected", "table:esc", "Recv.mint1:ok", "Recv.mint2:ok"],
     "C49": ["Transfer.badsigner.v1:err", "Transfer.badsigner.v2:err", "Transfer.badsigner.alias:err", "Recv.mint1:ok",
             "Recv.release:ok", "Ack.refund.escrow:ok", "Timeout.mint:ok"],
